@@ -59,6 +59,14 @@ pub struct Profile {
     /// namespace URIs whose last segments abbreviate alike (prefixes typ, typ1, typ2 ...)
     #[serde(default)]
     pub colliding_abbrev: bool,
+    /// a simple type derived from another named simple type may be used as the type of a member
+    /// declared in a different namespace (open finding F45 masks this for the wire checks)
+    #[serde(default = "yes")]
+    pub derived_simple_foreign_use: bool,
+}
+
+fn yes() -> bool {
+    true
 }
 
 impl Profile {
@@ -94,6 +102,7 @@ impl Profile {
             ext_bias: false,
             collide: false,
             colliding_abbrev: false,
+            derived_simple_foreign_use: true,
         }
     }
     /// switch a feature off by its tag name; returns false for an unknown tag
@@ -124,6 +133,7 @@ impl Profile {
             "lower_case_ops" => self.lower_case_ops = false,
             "facets" => self.facets = false,
             "forward_refs" => self.forward_refs = false,
+            "derived_simple_foreign_use" => self.derived_simple_foreign_use = false,
             _ => return false,
         }
         true
@@ -420,7 +430,14 @@ impl B<'_> {
             RawTy::Builtin(b) => TypeRef::Builtin(BUILTINS[*b as usize % BUILTINS.len()].to_string()),
             RawTy::Named(sel) => {
                 let tags: &[u8] = if simple_only { &[0] } else { &[0, 1] };
-                let c = self.candidates(file, limit, tags, false);
+                let mut c = self.candidates(file, limit, tags, false);
+                if !self.p.derived_simple_foreign_use {
+                    let before = c.len();
+                    c.retain(|q| q.file == file || !matches!(&self.files[q.file].comps[q.comp].kind, CompKind::Simple(SimpleKind::Restriction { base: TypeRef::Named(_), .. })));
+                    if c.len() < before {
+                        self.stats.mask("derived_simple_foreign_use");
+                    }
+                }
                 if c.is_empty() {
                     TypeRef::Builtin(BUILTINS[*sel as usize % BUILTINS.len()].to_string())
                 } else {
@@ -746,6 +763,13 @@ pub fn build(raw: &RawModel, p: &Profile) -> (Model, BuildStats) {
                                 b.stats.mask("list_union");
                             }
                             let mut bt = b.resolve_ty(fi, limit, base, true);
+                            if let TypeRef::Named(q) = &bt {
+                                // (F45) a base in another namespace is flattened across namespaces too
+                                if !p.derived_simple_foreign_use && q.file != fi {
+                                    b.stats.mask("derived_simple_foreign_use");
+                                    bt = TypeRef::Builtin("string".into());
+                                }
+                            }
                             if let TypeRef::Named(_) = bt {
                                 if !p.derived_simple {
                                     b.stats.mask("derived_simple");
